@@ -23,12 +23,18 @@ from genjax import pjax as gpjax, normal, gen
 PROP = "C14"
 COMPILING = {"jit", "scan", "while", "fori", "cond", "switch"}
 WRAPPERS = ["jit", "scan", "while", "fori", "cond", "switch", "grad", "vmap", "checkpoint", "custom_jvp", "vmap_unbatched",
-            "mvmap_mapped", "mvmap_unmapped", "gen_vmap"]
+            "mvmap_mapped", "mvmap_unmapped", "gen_vmap", "custom_vjp"]
+# wrappers whose bodies the seed interpreter does not walk itself and that JAX evaluates without compiling
+OPAQUE = ["checkpoint", "custom_jvp", "custom_vjp"]
 
 
 def gen_case(rng, tier):
     depth = rng.choice([1, 1, 2, 2, 3])
     chain = [rng.choice(WRAPPERS) for _ in range(depth)]
+    if rng.random() < 0.15:
+        # a site several levels deep inside opaque, eagerly evaluated wrappers (optionally below one other wrapper)
+        chain = ([rng.choice(WRAPPERS)] if rng.random() < 0.3 else []) + [rng.choice(OPAQUE) for _ in range(rng.randint(2, 3))]
+        depth = len(chain)
     # reverse-mode differentiation of lax.while_loop / fori_loop is not a JAX program at all
     while any(w == "grad" and any(v in ("while", "fori") for v in chain[i + 1:]) for i, w in enumerate(chain)):
         chain = [rng.choice(WRAPPERS) for _ in range(depth)]
@@ -105,6 +111,10 @@ def wrap(w, g):
     if w == "custom_jvp":
         f = jax.custom_jvp(lambda x: g(x))
         f.defjvp(lambda p, t: (f(p[0]), t[0]))
+        return f
+    if w == "custom_vjp":
+        f = jax.custom_vjp(lambda x: g(x))
+        f.defvjp(lambda x: (g(x), None), lambda res, ct: (ct,))
         return f
     raise ValueError(w)
 
